@@ -15,21 +15,44 @@ variable (ctx : Ctx)
 
 def WF (s : St) : Prop := s.refPos ≤ s.pos ∧ s.pos ≤ ctx.toks.size
 
+/-- the token array ends with its only `Eof` token (every output of the lexer does) -/
+structure EofLast : Prop where
+  last : ∃ t, ctx.toks[ctx.toks.size - 1]? = some t ∧ t.kind = Kind.Eof
+  only : ∀ i t, ctx.toks[i]? = some t → t.kind = Kind.Eof → i + 1 = ctx.toks.size
+
+/-- in such an array: a parser that starts in front of the final `Eof` does not get behind it -/
+def Tight (s s' : St) : Prop := EofLast ctx → s.pos < ctx.toks.size → s'.pos < ctx.toks.size
+
 /-- a result state lies at or behind `s`, inside the array, under the same reference position -/
-def Post (s s' : St) : Prop := s.pos ≤ s'.pos ∧ s'.pos ≤ ctx.toks.size ∧ s'.refPos = s.refPos
+def PostW (s s' : St) : Prop := s.pos ≤ s'.pos ∧ s'.pos ≤ ctx.toks.size ∧ s'.refPos = s.refPos
+
+/-- … and the final `Eof` is not consumed -/
+def Post (s s' : St) : Prop := s.pos ≤ s'.pos ∧ s'.pos ≤ ctx.toks.size ∧ s'.refPos = s.refPos ∧ Tight ctx s s'
 
 structure Safe {α} (p : P α) (s : St) : Prop where
   np : ∀ e, p s ≠ .panic e
   ok : ∀ s' a, p s = .ok s' a → Post ctx s s'
   er : ∀ k s', p s = .err k s' → k = false ∧ Post ctx s s'
 
-theorem Post.refl {s : St} (hw : WF ctx s) : Post ctx s s := ⟨Nat.le_refl _, hw.2, rfl⟩
+/-- the same for parsers that may consume the final `Eof` when they succeed (`eof`, the look-ahead sets): they
+    are only run under `peek` or as the very last parser -/
+structure SafeW {α} (p : P α) (s : St) : Prop where
+  np : ∀ e, p s ≠ .panic e
+  ok : ∀ s' a, p s = .ok s' a → PostW ctx s s'
+  er : ∀ k s', p s = .err k s' → k = false ∧ Post ctx s s'
+
+theorem Post.w {s s' : St} (h : Post ctx s s') : PostW ctx s s' := ⟨h.1, h.2.1, h.2.2.1⟩
+
+theorem Safe.w {α} {p : P α} {s : St} (h : Safe ctx p s) : SafeW ctx p s :=
+  ⟨h.np, fun s' a e => (h.ok s' a e).w, h.er⟩
+
+theorem Post.refl {s : St} (hw : WF ctx s) : Post ctx s s := ⟨Nat.le_refl _, hw.2, rfl, fun _ h => h⟩
 
 theorem Post.trans {a b c : St} (h1 : Post ctx a b) (h2 : Post ctx b c) : Post ctx a c :=
-  ⟨Nat.le_trans h1.1 h2.1, h2.2.1, h2.2.2.trans h1.2.2⟩
+  ⟨Nat.le_trans h1.1 h2.1, h2.2.1, h2.2.2.1.trans h1.2.2.1, fun he hb => h2.2.2.2 he (h1.2.2.2 he hb)⟩
 
 theorem Post.wf {s s' : St} (h : Post ctx s s') (hw : WF ctx s) : WF ctx s' :=
-  ⟨by rw [h.2.2]; exact Nat.le_trans hw.1 h.1, h.2.1⟩
+  ⟨by rw [h.2.2.1]; exact Nat.le_trans hw.1 h.1, h.2.1⟩
 
 theorem Safe.wf_ok {α} {p : P α} {s s' : St} {a : α} (h : Safe ctx p s) (hw : WF ctx s) (e : p s = .ok s' a) : WF ctx s' :=
   (h.ok s' a e).wf ctx hw
@@ -134,7 +157,7 @@ theorem many0_safe {α} (p : P α) (r : Nat) : ∀ (fuel : Nat) (s : St), WF ctx
       · exact safe_of_err ctx (s' := s) (by simp [many0, h, hq]) (Post.refl ctx hw)
       · have hw' : WF ctx s' := hpost.wf ctx hw
         have hlt : s.pos < s'.pos := by have := hpost.1; omega
-        have ih := many0_safe p r fuel s' hw' (by have := hw'.2; omega) (by rw [hpost.2.2, hr])
+        have ih := many0_safe p r fuel s' hw' (by have := hw'.2; omega) (by rw [hpost.2.2.1, hr])
           (fun s2 w2 l2 r2 => hp s2 w2 (Nat.le_trans hpost.1 l2) r2)
         have hb : (s'.pos == s.pos) = false := by simpa using hq
         cases h2 : many0 p fuel s' with
@@ -146,15 +169,8 @@ theorem many0_safe {α} (p : P α) (r : Nat) : ∀ (fuel : Nat) (s : St), WF ctx
 
 /-! ### token level -/
 
-theorem take1_safe (s : St) (hw : WF ctx s) : Safe ctx (take1 ctx) s := by
-  cases h : ctx.toks[s.pos]? with
-  | none => exact safe_of_err ctx (s' := s) (by simp [take1, h]) (Post.refl ctx hw)
-  | some t =>
-    have hlt : s.pos < ctx.toks.size := (Array.getElem?_eq_some_iff.mp h).1
-    exact safe_of_ok ctx (s' := { s with pos := s.pos + 1 }) (a := t) (by simp [take1, h])
-      ⟨Nat.le_succ _, hlt, rfl⟩
-
-theorem take1_ok {s s' : St} {t : Token} (h : take1 ctx s = .ok s' t) : s'.pos = s.pos + 1 ∧ ctx.toks[s.pos]? = some t := by
+theorem take1_ok {s s' : St} {t : Token} (h : take1 ctx s = .ok s' t) :
+    s' = { s with pos := s.pos + 1 } ∧ ctx.toks[s.pos]? = some t := by
   unfold take1 at h
   cases ht : ctx.toks[s.pos]? with
   | none => simp [ht] at h
@@ -163,44 +179,109 @@ theorem take1_ok {s s' : St} {t : Token} (h : take1 ctx s = .ok s' t) : s'.pos =
     obtain ⟨rfl, rfl⟩ := h
     exact ⟨rfl, rfl⟩
 
+theorem take1_err {s s' : St} {k : Bool} (h : take1 ctx s = .err k s') : k = false ∧ s' = s := by
+  unfold take1 at h
+  cases ht : ctx.toks[s.pos]? with
+  | none => simp only [ht, Res.err.injEq] at h; exact ⟨h.1.symm, h.2.symm⟩
+  | some t' => simp [ht] at h
+
+theorem take1_np (s : St) (e : Panic) : take1 ctx s ≠ .panic e := by
+  unfold take1
+  cases ctx.toks[s.pos]? <;> simp
+
+/-- taking a token that is not the final `Eof` -/
+theorem take1_post {s s' : St} {t : Token} (hw : WF ctx s) (h : take1 ctx s = .ok s' t) (hk : t.kind ≠ Kind.Eof) :
+    Post ctx s s' := by
+  obtain ⟨rfl, ht⟩ := take1_ok ctx h
+  have hlt : s.pos < ctx.toks.size := (Array.getElem?_eq_some_iff.mp ht).1
+  refine ⟨Nat.le_succ _, hlt, rfl, ?_⟩
+  intro he _
+  obtain ⟨tl, htl, hkl⟩ := he.last
+  show s.pos + 1 < ctx.toks.size
+  by_cases hq : s.pos + 1 = ctx.toks.size
+  · have : s.pos = ctx.toks.size - 1 := by omega
+    rw [← this, ht] at htl
+    cases htl
+    exact absurd hkl hk
+  · omega
+
+theorem take1_postW {s s' : St} {t : Token} (h : take1 ctx s = .ok s' t) : PostW ctx s s' := by
+  obtain ⟨rfl, ht⟩ := take1_ok ctx h
+  have hlt : s.pos < ctx.toks.size := (Array.getElem?_eq_some_iff.mp ht).1
+  exact ⟨Nat.le_succ _, hlt, rfl⟩
+
 theorem comment_safe (s : St) (hw : WF ctx s) : Safe ctx (comment ctx) s := by
-  have h1 := take1_safe ctx s hw
   cases h : take1 ctx s with
   | ok s' t =>
     cases hty : t.ty with
-    | Comment c => exact safe_of_ok ctx (s' := s') (a := c) (by simp [comment, h, hty]) (h1.ok _ _ h)
+    | Comment c =>
+      exact safe_of_ok ctx (s' := s') (a := c) (by simp [comment, h, hty])
+        (take1_post ctx hw h (by simp [Token.kind, hty, TokenType.kind]))
     | _ => exact safe_of_err ctx (s' := s) (by simp [comment, h, hty]) (Post.refl ctx hw)
   | err k s' =>
-    obtain ⟨rfl, hp⟩ := h1.er _ _ h
-    exact safe_of_err ctx (s' := s') (by simp [comment, h]) hp
-  | panic e => exact absurd h (h1.np e)
+    obtain ⟨rfl, rfl⟩ := take1_err ctx h
+    exact safe_of_err ctx (s' := s') (by simp [comment, h]) (Post.refl ctx hw)
+  | panic e => exact absurd h (take1_np ctx s e)
 
-theorem tag_safe (fuel : Nat) (pred : TokenType → Bool) (s : St) (hw : WF ctx s) (hf : ctx.toks.size - s.pos < fuel) :
-    Safe ctx (tag ctx fuel pred) s := by
-  have hm := many0_safe ctx (comment ctx) s.refPos fuel s hw hf rfl (fun s' w _ _ => comment_safe ctx s' w)
+theorem comments_safe (fuel : Nat) (s : St) (hw : WF ctx s) (hf : ctx.toks.size - s.pos < fuel) :
+    Safe ctx (many0 (comment ctx) fuel) s :=
+  many0_safe ctx (comment ctx) s.refPos fuel s hw hf rfl (fun s' w _ _ => comment_safe ctx s' w)
+
+/-- a token parser whose predicate does not accept `Eof` -/
+theorem tag_safe (fuel : Nat) (pred : TokenType → Bool) (hpred : ∀ ty, pred ty = true → ty.kind ≠ Kind.Eof)
+    (s : St) (hw : WF ctx s) (hf : ctx.toks.size - s.pos < fuel) : Safe ctx (tag ctx fuel pred) s := by
+  have hm := comments_safe ctx fuel s hw hf
   cases h : many0 (comment ctx) fuel s with
   | ok s1 cs =>
     have hp1 := hm.ok _ _ h
-    have h1 := take1_safe ctx s1 (hp1.wf ctx hw)
+    have w1 := hp1.wf ctx hw
     cases h2 : take1 ctx s1 with
     | ok s2 t =>
       by_cases hpd : pred t.ty = true
-      · exact safe_of_ok ctx (s' := s2) (a := t) (by simp [tag, h, h2, hpd]) (hp1.trans ctx (h1.ok _ _ h2))
+      · exact safe_of_ok ctx (s' := s2) (a := t) (by simp [tag, h, h2, hpd])
+          (hp1.trans ctx (take1_post ctx w1 h2 (hpred _ hpd)))
       · exact safe_of_err ctx (s' := s) (by simp [tag, h, h2, hpd]) (Post.refl ctx hw)
     | err k s' =>
-      obtain ⟨rfl, hp⟩ := h1.er _ _ h2
-      exact safe_of_err ctx (s' := s') (by simp [tag, h, h2]) (hp1.trans ctx hp)
-    | panic e => exact absurd h2 (h1.np e)
+      obtain ⟨rfl, rfl⟩ := take1_err ctx h2
+      exact safe_of_err ctx (s' := s') (by simp [tag, h, h2]) hp1
+    | panic e => exact absurd h2 (take1_np ctx s1 e)
   | err k s' =>
     obtain ⟨rfl, hp⟩ := hm.er _ _ h
     exact safe_of_err ctx (s' := s') (by simp [tag, h]) hp
   | panic e => exact absurd h (hm.np e)
 
+/-- any token parser (it may take the final `Eof`) -/
+theorem tag_safeW (fuel : Nat) (pred : TokenType → Bool) (s : St) (hw : WF ctx s) (hf : ctx.toks.size - s.pos < fuel) :
+    SafeW ctx (tag ctx fuel pred) s := by
+  have hm := comments_safe ctx fuel s hw hf
+  cases h : many0 (comment ctx) fuel s with
+  | ok s1 cs =>
+    have hp1 := hm.ok _ _ h
+    cases h2 : take1 ctx s1 with
+    | ok s2 t =>
+      by_cases hpd : pred t.ty = true
+      · have e : tag ctx fuel pred s = .ok s2 t := by simp [tag, h, h2, hpd]
+        have hw2 := take1_postW ctx h2
+        refine ⟨?_, ?_, ?_⟩
+        · intro x hx; rw [e] at hx; cases hx
+        · intro s'' b hx; rw [e] at hx; cases hx
+          exact ⟨Nat.le_trans hp1.1 hw2.1, hw2.2.1, hw2.2.2.trans hp1.2.2.1⟩
+        · intro k s'' hx; rw [e] at hx; cases hx
+      · exact (safe_of_err ctx (s' := s) (by simp [tag, h, h2, hpd]) (Post.refl ctx hw)).w
+    | err k s' =>
+      obtain ⟨rfl, rfl⟩ := take1_err ctx h2
+      exact (safe_of_err ctx (s' := s') (by simp [tag, h, h2]) hp1).w
+    | panic e => exact absurd h2 (take1_np ctx s1 e)
+  | err k s' =>
+    obtain ⟨rfl, hp⟩ := hm.er _ _ h
+    exact (safe_of_err ctx (s' := s') (by simp [tag, h]) hp).w
+  | panic e => exact absurd h (hm.np e)
+
 /-- a token parser that succeeds has consumed its token -/
 theorem tag_ok {fuel : Nat} {pred : TokenType → Bool} {s s' : St} {t : Token} (hw : WF ctx s)
     (hf : ctx.toks.size - s.pos < fuel) (h : tag ctx fuel pred s = .ok s' t) :
-    s.pos < s'.pos ∧ pred t.ty = true := by
-  have hm := many0_safe ctx (comment ctx) s.refPos fuel s hw hf rfl (fun s' w _ _ => comment_safe ctx s' w)
+    s.pos < s'.pos ∧ pred t.ty = true ∧ ctx.toks[s'.pos - 1]? = some t := by
+  have hm := comments_safe ctx fuel s hw hf
   unfold tag at h
   cases h1 : many0 (comment ctx) fuel s with
   | ok s1 cs =>
@@ -212,9 +293,9 @@ theorem tag_ok {fuel : Nat} {pred : TokenType → Bool} {s s' : St} {t : Token} 
       by_cases hpd : pred t2.ty = true
       · simp only [hpd, if_true, Res.ok.injEq] at h
         obtain ⟨rfl, rfl⟩ := h
-        have := (take1_ok ctx h2).1
+        obtain ⟨rfl, ht⟩ := take1_ok ctx h2
         have := hp1.1
-        exact ⟨by omega, hpd⟩
+        exact ⟨by simp; omega, hpd, by simpa using ht⟩
       · simp [hpd] at h
     | err k x => simp [h2] at h
     | panic e => simp [h2] at h
@@ -226,15 +307,22 @@ theorem loopFuel_ok (s : St) (hw : WF ctx s) : ctx.toks.size - s.pos < loopFuel 
   simp only [loopFuel]
   omega
 
-theorem tk_safe (k : Kind) (s : St) (hw : WF ctx s) : Safe ctx (tk ctx k) s := by
+theorem tk_safe (k : Kind) (s : St) (hw : WF ctx s) (hk : k ≠ Kind.Eof := by decide) : Safe ctx (tk ctx k) s := by
   show Safe ctx (tag ctx (loopFuel ctx) (fun ty => ty.kind == k)) s
-  exact tag_safe ctx _ _ s hw (loopFuel_ok ctx s hw)
+  refine tag_safe ctx _ _ ?_ s hw (loopFuel_ok ctx s hw)
+  intro ty hty he
+  have : ty.kind = k := by simpa using hty
+  exact hk (this ▸ he)
+
+theorem tk_safeW (k : Kind) (s : St) (hw : WF ctx s) : SafeW ctx (tk ctx k) s := by
+  show SafeW ctx (tag ctx (loopFuel ctx) (fun ty => ty.kind == k)) s
+  exact tag_safeW ctx _ _ s hw (loopFuel_ok ctx s hw)
 
 theorem tk_ok {k : Kind} {s s' : St} {t : Token} (hw : WF ctx s) (h : tk ctx k s = .ok s' t) :
-    s.pos < s'.pos ∧ t.kind = k := by
+    s.pos < s'.pos ∧ t.kind = k ∧ ctx.toks[s'.pos - 1]? = some t := by
   have h' : tag ctx (loopFuel ctx) (fun ty => ty.kind == k) s = .ok s' t := h
-  obtain ⟨h1, h2⟩ := tag_ok ctx hw (loopFuel_ok ctx s hw) h'
-  exact ⟨h1, by simpa [Token.kind] using h2⟩
+  obtain ⟨h1, h2, h3⟩ := tag_ok ctx hw (loopFuel_ok ctx s hw) h'
+  exact ⟨h1, by simpa [Token.kind] using h2, h3⟩
 
 /-! ### `utility.rs` -/
 
@@ -306,14 +394,18 @@ theorem confusable_safe {α} {p : P α} (msg : Msg) {s : St} (hw : WF ctx s) (hp
   | ok s' r =>
     obtain ⟨a, i⟩ := r
     exact safe_of_ok ctx (s' := { s' with errBuf := s'.errBuf ++ [⟨i.range, msg⟩] }) (a := a)
-      (by simp [confusable, h]) ⟨(hi.ok _ _ h).1, (hi.ok _ _ h).2.1, (hi.ok _ _ h).2.2⟩
+      (by simp [confusable, h]) ⟨(hi.ok _ _ h).1, (hi.ok _ _ h).2.1, (hi.ok _ _ h).2.2.1, (hi.ok _ _ h).2.2.2⟩
   | err k s' =>
     obtain ⟨rfl, hpost⟩ := hi.er _ _ h
     exact safe_of_err ctx (s' := s') (by simp [confusable, h]) hpost
   | panic e => exact absurd h (hi.np e)
 
+/-- a pattern that does not fail in front of the final `Eof` (every synchronisation set accepts `Eof`) -/
+def AtEof (pattern : P Unit) : Prop :=
+  EofLast ctx → ∀ s', WF ctx s' → s'.pos + 1 = ctx.toks.size → ∀ k x, pattern s' ≠ .err k x
+
 /-- `ignore_until0`: the pattern is tried at every position up to the end of the array -/
-theorem ignoreUntil0_safe (pattern : P Unit) (r : Nat) : ∀ (fuel start : Nat) (s0 s : St), WF ctx s →
+theorem ignoreUntil0_safe (pattern : P Unit) (hE : AtEof ctx pattern) (r : Nat) : ∀ (fuel start : Nat) (s0 s : St), WF ctx s →
     ctx.toks.size - s.pos < fuel → s.refPos = r → Post ctx s0 s →
     (∀ s', WF ctx s' → s.pos ≤ s'.pos → s'.refPos = r → Safe ctx pattern s') →
     (∀ e, ignoreUntil0 ctx pattern fuel start s ≠ .panic e) ∧
@@ -333,33 +425,41 @@ theorem ignoreUntil0_safe (pattern : P Unit) (r : Nat) : ∀ (fuel start : Nat) 
       · intro k s' hx; rw [e] at hx; cases hx
     | panic e => exact absurd h (hs.np e)
     | err k x =>
-      have ht := take1_safe ctx s hw
       cases h2 : take1 ctx s with
       | ok s1 t =>
-        have hp1 := ht.ok _ _ h2
-        have hlt := (take1_ok ctx h2).1
-        have e : ignoreUntil0 ctx pattern (fuel + 1) start s = ignoreUntil0 ctx pattern fuel start s1 := by
+        obtain ⟨rfl, ht⟩ := take1_ok ctx h2
+        have hw1 := take1_postW ctx h2
+        have hp1 : Post ctx s { s with pos := s.pos + 1 } := by
+          refine ⟨hw1.1, hw1.2.1, rfl, ?_⟩
+          intro he _
+          show s.pos + 1 < ctx.toks.size
+          have hlt : s.pos < ctx.toks.size := (Array.getElem?_eq_some_iff.mp ht).1
+          by_cases hq : s.pos + 1 = ctx.toks.size
+          · exact absurd h (hE he s hw hq k x)
+          · omega
+        have e : ignoreUntil0 ctx pattern (fuel + 1) start s =
+            ignoreUntil0 ctx pattern fuel start { s with pos := s.pos + 1 } := by
           simp [ignoreUntil0, h, h2]
         rw [e]
-        exact ignoreUntil0_safe pattern r fuel start s0 s1 (hp1.wf ctx hw) (by have := hp1.2.1; omega)
-          (by rw [hp1.2.2, hr]) (h0.trans ctx hp1) (fun s' w l rr => hp s' w (by omega) rr)
+        exact ignoreUntil0_safe pattern hE r fuel start s0 _ (hp1.wf ctx hw) (by have := hp1.2.1; simp at this ⊢; omega)
+          (by simpa using hr) (h0.trans ctx hp1) (fun s' w l rr => hp s' w (by simp at l; omega) rr)
       | err k2 s' =>
-        obtain ⟨rfl, hpost⟩ := ht.er _ _ h2
+        obtain ⟨rfl, hs'⟩ := take1_err ctx h2
         have e : ignoreUntil0 ctx pattern (fuel + 1) start s = .err false s' := by simp [ignoreUntil0, h, h2]
         refine ⟨?_, ?_, ?_⟩
         · intro x hx; rw [e] at hx; cases hx
         · intro s'' a hx; rw [e] at hx; cases hx
-        · intro k s'' hx; rw [e] at hx; cases hx; exact ⟨rfl, h0.trans ctx hpost⟩
-      | panic e => exact absurd h2 (ht.np e)
+        · intro k s'' hx; rw [e] at hx; cases hx; exact ⟨rfl, hs' ▸ h0⟩
+      | panic e => exact absurd h2 (take1_np ctx s e)
 
-theorem ignoreUntil0_safe' (pattern : P Unit) (fuel start : Nat) (s : St) (hw : WF ctx s)
+theorem ignoreUntil0_safe' (pattern : P Unit) (hE : AtEof ctx pattern) (fuel start : Nat) (s : St) (hw : WF ctx s)
     (hf : ctx.toks.size - s.pos < fuel)
     (hp : ∀ s', WF ctx s' → s.pos ≤ s'.pos → s'.refPos = s.refPos → Safe ctx pattern s') :
     Safe ctx (ignoreUntil0 ctx pattern fuel start) s := by
-  obtain ⟨a, b, c⟩ := ignoreUntil0_safe ctx pattern s.refPos fuel start s s hw hf rfl (Post.refl ctx hw) hp
+  obtain ⟨a, b, c⟩ := ignoreUntil0_safe ctx pattern hE s.refPos fuel start s s hw hf rfl (Post.refl ctx hw) hp
   exact ⟨a, b, c⟩
 
-theorem ignoreUntil1_safe (pattern : P Unit) (fuel : Nat) (s : St) (hw : WF ctx s)
+theorem ignoreUntil1_safe (pattern : P Unit) (hE : AtEof ctx pattern) (fuel : Nat) (s : St) (hw : WF ctx s)
     (hf : ctx.toks.size - s.pos < fuel)
     (hp : ∀ s', WF ctx s' → s.pos ≤ s'.pos → s'.refPos = s.refPos → Safe ctx pattern s') :
     Safe ctx (ignoreUntil1 ctx pattern fuel) s := by
@@ -369,7 +469,7 @@ theorem ignoreUntil1_safe (pattern : P Unit) (fuel : Nat) (s : St) (hw : WF ctx 
   | panic e => exact absurd h (hs.np e)
   | err k x =>
     exact safe_congr ctx (q := ignoreUntil0 ctx pattern fuel s.pos) (by simp [ignoreUntil1, h])
-      (ignoreUntil0_safe' ctx pattern fuel s.pos s hw hf hp)
+      (ignoreUntil0_safe' ctx pattern hE fuel s.pos s hw hf hp)
 
 /-- `Reference::parse` without an old node -/
 theorem refParse_safe {α} {parseT : Option α → P α} {s : St} (hw : WF ctx s)
@@ -379,11 +479,11 @@ theorem refParse_safe {α} {parseT : Option α → P α} {s : St} (hw : WF ctx s
   | ok s' a =>
     have hpost := hp.ok _ _ h
     exact safe_of_ok ctx (s' := { s' with refPos := s.refPos }) (a := ⟨a, s.pos - s.refPos⟩)
-      (by simp [refParse, h0, h]) ⟨hpost.1, hpost.2.1, rfl⟩
+      (by simp [refParse, h0, h]) ⟨hpost.1, hpost.2.1, rfl, hpost.2.2.2⟩
   | err k s' =>
     obtain ⟨rfl, hpost⟩ := hp.er _ _ h
     exact safe_of_err ctx (s' := { s' with refPos := s.refPos, incRefs := s'.incRefs.dropLast })
-      (by simp [refParse, h0, h]) ⟨hpost.1, hpost.2.1, rfl⟩
+      (by simp [refParse, h0, h]) ⟨hpost.1, hpost.2.1, rfl, hpost.2.2.2⟩
   | panic e => exact absurd h (hp.np e)
 
 theorem wf_reref {s : St} (hw : WF ctx s) : WF ctx { s with refPos := s.pos } := ⟨Nat.le_refl _, hw.2⟩
@@ -405,11 +505,12 @@ theorem many_safe {α} (range : α → Range) (parseT : Option α → P α) (s :
 
 theorem affected_none {α} (ops : NodeOps α) (inner : P α) : affected ctx ops none inner = inner := rfl
 
-theorem tks_safe (ks : List Kind) (s : St) (hw : WF ctx s) : Safe ctx (altList (ks.map (tk ctx))) s :=
+theorem tks_safe (ks : List Kind) (s : St) (hw : WF ctx s) (hks : ∀ k ∈ ks, k ≠ Kind.Eof := by decide) :
+    Safe ctx (altList (ks.map (tk ctx))) s :=
   altList_safe ctx hw _ (by
     intro p hp
-    obtain ⟨k, _, rfl⟩ := List.mem_map.mp hp
-    exact tk_safe ctx k s hw)
+    obtain ⟨k, hk, rfl⟩ := List.mem_map.mp hp
+    exact tk_safe ctx k s hw (hks k hk))
 
 /-- a token of an alternative of token parsers has one of the kinds, and is consumed -/
 theorem tks_ok : ∀ (ks : List Kind) (s s' : St) (t : Token), WF ctx s → altList (ks.map (tk ctx)) s = .ok s' t →
@@ -459,77 +560,250 @@ theorem ident_progress {s s' : St} {i : Identifier} (hw : WF ctx s) (h : parseId
 
 /-! ### look-ahead sets -/
 
-theorem identThen_safe (ks : List Kind) (s : St) (hw : WF ctx s) :
+theorem identThen_safe (ks : List Kind) (s : St) (hw : WF ctx s) (hks : ∀ k ∈ ks, k ≠ Kind.Eof := by decide) :
     Safe ctx (void (Parse.bind (parseIdentifier ctx none) (fun _ => altList (ks.map (tk ctx))))) s :=
   void_safe ctx (bind_safe ctx (ident_safe ctx s hw) (fun s' a h =>
-    tks_safe ctx ks s' ((ident_safe ctx s hw).wf_ok ctx hw h)))
+    tks_safe ctx ks s' ((ident_safe ctx s hw).wf_ok ctx hw h) hks))
 
-theorem la_global_safe (fuel d : Nat) (s : St) (hw : WF ctx s) : Safe ctx (lookAhead ctx fuel (d + 1) .global_dec) s := by
+/-! #### parsers that may take the final `Eof` -/
+
+theorem safeW_of_ok {α} {p : P α} {s s' : St} {a : α} (e : p s = .ok s' a) (h : PostW ctx s s') : SafeW ctx p s := by
+  refine ⟨?_, ?_, ?_⟩
+  · intro x hx; rw [e] at hx; cases hx
+  · intro s'' b hx; rw [e] at hx; cases hx; exact h
+  · intro k s'' hx; rw [e] at hx; cases hx
+
+theorem safeW_congr {α} {p q : P α} {s : St} (e : p s = q s) (h : SafeW ctx q s) : SafeW ctx p s := by
+  refine ⟨?_, ?_, ?_⟩
+  · intro x hx; rw [e] at hx; exact h.np x hx
+  · intro s'' b hx; rw [e] at hx; exact h.ok _ _ hx
+  · intro k s'' hx; rw [e] at hx; exact h.er _ _ hx
+
+theorem pmap_safeW {α β} {p : P α} (f : α → β) {s : St} (hp : SafeW ctx p s) : SafeW ctx (pmap f p) s := by
+  cases h : p s with
+  | ok s' a => exact safeW_of_ok ctx (a := f a) (by simp [pmap, h]) (hp.ok _ _ h)
+  | err k s' =>
+    obtain ⟨rfl, hpost⟩ := hp.er _ _ h
+    exact (safe_of_err ctx (by simp [pmap, h]) hpost).w
+  | panic e => exact absurd h (hp.np e)
+
+theorem void_safeW {α} {p : P α} {s : St} (hp : SafeW ctx p s) : SafeW ctx (void p) s := pmap_safeW ctx _ hp
+
+theorem alt2_safeW {α} {p q : P α} {s : St} (hp : SafeW ctx p s) (hq : SafeW ctx q s) : SafeW ctx (alt2 p q) s := by
+  cases h : p s with
+  | ok s' a => exact safeW_of_ok ctx (a := a) (by simp [alt2, h]) (hp.ok _ _ h)
+  | err k s' => exact safeW_congr ctx (q := q) (by simp [alt2, h]) hq
+  | panic e => exact absurd h (hp.np e)
+
+theorem altList_safeW {α} {s : St} (hw : WF ctx s) : ∀ (ps : List (P α)), (∀ p ∈ ps, SafeW ctx p s) → SafeW ctx (altList ps) s
+  | [], _ => (safe_of_err ctx (s' := s) rfl (Post.refl ctx hw)).w
+  | [p], h => by simpa [altList] using h p (by simp)
+  | p :: q :: ps, h => by
+    simp only [altList]
+    exact alt2_safeW ctx (h p (by simp)) (altList_safeW hw (q :: ps) (fun x hx => h x (List.mem_cons_of_mem _ hx)))
+
+/-- under `peek` the input is restored: the final `Eof` stays where it is -/
+theorem peek_safeW {α} {p : P α} {s : St} (hw : WF ctx s) (hp : SafeW ctx p s) : Safe ctx (peek p) s := by
+  cases h : p s with
+  | ok s' a => exact safe_of_ok ctx (s' := s) (a := a) (by simp [peek, h]) (Post.refl ctx hw)
+  | err k s' =>
+    obtain ⟨rfl, hpost⟩ := hp.er _ _ h
+    exact safe_of_err ctx (by simp [peek, h]) hpost
+  | panic e => exact absurd h (hp.np e)
+
+/-- an alternative succeeds if one of its members does and none panics -/
+theorem altList_ok {α} {s : St} : ∀ (ps : List (P α)), (∀ p ∈ ps, ∀ e, p s ≠ .panic e) →
+    (∃ p ∈ ps, ∃ s' a, p s = .ok s' a) → ∃ s' a, altList ps s = .ok s' a
+  | [], _, h => by obtain ⟨p, hp, _⟩ := h; cases hp
+  | [p], _, h => by
+    obtain ⟨q, hq, s', a, e⟩ := h
+    simp only [List.mem_singleton] at hq
+    subst hq
+    exact ⟨s', a, by simpa [altList] using e⟩
+  | p :: q :: ps, hnp, h => by
+    simp only [altList, alt2]
+    cases hp : p s with
+    | ok s' a => exact ⟨s', a, rfl⟩
+    | panic e => exact absurd hp (hnp p (by simp) e)
+    | err k x =>
+      simp only
+      apply altList_ok (q :: ps) (fun r hr => hnp r (List.mem_cons_of_mem _ hr))
+      obtain ⟨r, hr, s', a, e⟩ := h
+      rcases List.mem_cons.mp hr with rfl | hr
+      · rw [hp] at e; cases e
+      · exact ⟨r, hr, s', a, e⟩
+
+/-- in front of the final `Eof` the `eof` token parser succeeds -/
+theorem tkEof_at_eof (he : EofLast ctx) (s : St) (hw : WF ctx s) (hq : s.pos + 1 = ctx.toks.size) :
+    ∃ s' t, tk ctx .Eof s = .ok s' t := by
+  obtain ⟨tl, htl, hkl⟩ := he.last
+  have hidx : ctx.toks.size - 1 = s.pos := by omega
+  rw [hidx] at htl
+  have hc : comment ctx s = .err false s := by
+    have ht : take1 ctx s = .ok { s with pos := s.pos + 1 } tl := by simp [take1, htl]
+    unfold comment
+    rw [ht]
+    cases hty : tl.ty with
+    | Comment c => simp [Token.kind, hty, TokenType.kind] at hkl
+    | _ => simp only [hty]
+  have hm : many0 (comment ctx) (loopFuel ctx) s = .ok s [] := by
+    show many0 (comment ctx) (ctx.toks.size + 1 + 1) s = _
+    simp [many0, hc]
+  refine ⟨{ s with pos := s.pos + 1 }, tl, ?_⟩
+  show tag ctx (loopFuel ctx) (fun ty => ty.kind == Kind.Eof) s = _
+  have hk : (tl.ty.kind == Kind.Eof) = true := by simpa [Token.kind] using hkl
+  simp [tag, hm, take1, htl, hk]
+
+theorem la_global_safeW (fuel d : Nat) (s : St) (hw : WF ctx s) : SafeW ctx (lookAhead ctx fuel (d + 1) .global_dec) s := by
   simp only [lookAhead, Gen.lookAheadSet, List.map]
-  refine altList_safe ctx hw _ ?_
+  refine altList_safeW ctx hw _ ?_
   intro p hp
   simp only [List.mem_cons, List.not_mem_nil, or_false] at hp
-  rcases hp with rfl | rfl | rfl <;> exact void_safe ctx (tk_safe ctx _ _ hw)
+  rcases hp with rfl | rfl | rfl <;> exact void_safeW ctx (tk_safeW ctx _ _ hw)
 
-theorem la_stmt_safe (fuel d : Nat) (s : St) (hw : WF ctx s) : Safe ctx (lookAhead ctx fuel (d + 2) .stmt) s := by
+theorem la_stmt_safeW (fuel d : Nat) (s : St) (hw : WF ctx s) : SafeW ctx (lookAhead ctx fuel (d + 2) .stmt) s := by
   simp only [lookAhead, Gen.lookAheadSet, List.map]
-  refine altList_safe ctx hw _ ?_
+  refine altList_safeW ctx hw _ ?_
   intro p hp
   simp only [List.mem_cons, List.not_mem_nil, or_false] at hp
   rcases hp with rfl | rfl | rfl | rfl | rfl | rfl | rfl
   all_goals first
-    | exact void_safe ctx (tk_safe ctx _ _ hw)
-    | exact identThen_safe ctx [Kind.Assign, Kind.LParen] s hw
-    | exact la_global_safe ctx fuel d s hw
+    | exact void_safeW ctx (tk_safeW ctx _ _ hw)
+    | exact (identThen_safe ctx [Kind.Assign, Kind.LParen] s hw).w
+    | exact la_global_safeW ctx fuel d s hw
 
-theorem la_var_safe (fuel d : Nat) (s : St) (hw : WF ctx s) : Safe ctx (lookAhead ctx fuel (d + 3) .var_dec) s := by
+theorem la_var_safeW (fuel d : Nat) (s : St) (hw : WF ctx s) : SafeW ctx (lookAhead ctx fuel (d + 3) .var_dec) s := by
   simp only [lookAhead, Gen.lookAheadSet, List.map]
-  refine altList_safe ctx hw _ ?_
+  refine altList_safeW ctx hw _ ?_
   intro p hp
   simp only [List.mem_cons, List.not_mem_nil, or_false] at hp
   rcases hp with rfl | rfl | rfl
   all_goals first
-    | exact void_safe ctx (tk_safe ctx _ _ hw)
-    | exact identThen_safe ctx [Kind.LBracket, Kind.Eq, Kind.Colon] s hw
-    | exact la_stmt_safe ctx fuel d s hw
+    | exact void_safeW ctx (tk_safeW ctx _ _ hw)
+    | exact (identThen_safe ctx [Kind.LBracket, Kind.Eq, Kind.Colon] s hw).w
+    | exact la_stmt_safeW ctx fuel d s hw
 
-theorem la_param_safe (fuel d : Nat) (s : St) (hw : WF ctx s) : Safe ctx (lookAhead ctx fuel (d + 4) .param_dec) s := by
+theorem la_param_safeW (fuel d : Nat) (s : St) (hw : WF ctx s) : SafeW ctx (lookAhead ctx fuel (d + 4) .param_dec) s := by
   simp only [lookAhead, Gen.lookAheadSet, List.map]
-  refine altList_safe ctx hw _ ?_
+  refine altList_safeW ctx hw _ ?_
   intro p hp
   simp only [List.mem_cons, List.not_mem_nil, or_false] at hp
   rcases hp with rfl | rfl | rfl
   all_goals first
-    | exact void_safe ctx (tk_safe ctx _ _ hw)
-    | exact la_var_safe ctx fuel d s hw
+    | exact void_safeW ctx (tk_safeW ctx _ _ hw)
+    | exact la_var_safeW ctx fuel d s hw
 
-theorem la_arg_safe (fuel d : Nat) (s : St) (hw : WF ctx s) : Safe ctx (lookAhead ctx fuel (d + 5) .arg) s := by
+theorem la_arg_safeW (fuel d : Nat) (s : St) (hw : WF ctx s) : SafeW ctx (lookAhead ctx fuel (d + 5) .arg) s := by
   simp only [lookAhead, Gen.lookAheadSet, List.map]
-  refine altList_safe ctx hw _ ?_
+  refine altList_safeW ctx hw _ ?_
   intro p hp
   simp only [List.mem_cons, List.not_mem_nil, or_false] at hp
   subst hp
-  exact la_param_safe ctx fuel d s hw
+  exact la_param_safeW ctx fuel d s hw
 
 /-- every look-ahead set of the regenerated table fits into the depth budget of `la` -/
-theorem la_safe (n : LAName) (s : St) (hw : WF ctx s) : Safe ctx (la ctx n) s := by
+theorem la_safeW (n : LAName) (s : St) (hw : WF ctx s) : SafeW ctx (la ctx n) s := by
   cases n with
-  | global_dec => exact la_global_safe ctx 0 7 s hw
-  | stmt => exact la_stmt_safe ctx 0 6 s hw
-  | var_dec => exact la_var_safe ctx 0 5 s hw
-  | param_dec => exact la_param_safe ctx 0 4 s hw
-  | arg => exact la_arg_safe ctx 0 3 s hw
+  | global_dec => exact la_global_safeW ctx 0 7 s hw
+  | stmt => exact la_stmt_safeW ctx 0 6 s hw
+  | var_dec => exact la_var_safeW ctx 0 5 s hw
+  | param_dec => exact la_param_safeW ctx 0 4 s hw
+  | arg => exact la_arg_safeW ctx 0 3 s hw
 
 theorem peekla_safe (n : LAName) (s : St) (hw : WF ctx s) : Safe ctx (peek (la ctx n)) s :=
-  peek_safe ctx hw (la_safe ctx n s hw)
+  peek_safeW ctx hw (la_safeW ctx n s hw)
+
+/-- every look-ahead set accepts the final `Eof` -/
+theorem la_global_atEof (he : EofLast ctx) (fuel d : Nat) (s : St) (hw : WF ctx s) (hq : s.pos + 1 = ctx.toks.size) :
+    ∃ s' a, lookAhead ctx fuel (d + 1) .global_dec s = .ok s' a := by
+  simp only [lookAhead, Gen.lookAheadSet, List.map]
+  refine altList_ok _ ?_ ?_
+  · intro p hp
+    simp only [List.mem_cons, List.not_mem_nil, or_false] at hp
+    rcases hp with rfl | rfl | rfl <;> exact (void_safeW ctx (tk_safeW ctx _ _ hw)).np
+  · obtain ⟨s', t, e⟩ := tkEof_at_eof ctx he s hw hq
+    exact ⟨void (tk ctx .Eof), by simp, s', (), by simp [void, pmap, e]⟩
+
+theorem la_stmt_atEof (he : EofLast ctx) (fuel d : Nat) (s : St) (hw : WF ctx s) (hq : s.pos + 1 = ctx.toks.size) :
+    ∃ s' a, lookAhead ctx fuel (d + 2) .stmt s = .ok s' a := by
+  have hs := la_stmt_safeW ctx fuel d s hw
+  obtain ⟨s', a, e⟩ := la_global_atEof ctx he fuel d s hw hq
+  simp only [lookAhead, Gen.lookAheadSet, List.map] at hs e ⊢
+  refine altList_ok _ ?_ ⟨altList [void (tk ctx .Proc), void (tk ctx .Type), void (tk ctx .Eof)], by simp, s', a, e⟩
+  intro p hp
+  simp only [List.mem_cons, List.not_mem_nil, or_false] at hp
+  rcases hp with rfl | rfl | rfl | rfl | rfl | rfl | rfl
+  all_goals first
+    | exact (void_safeW ctx (tk_safeW ctx _ _ hw)).np
+    | exact (identThen_safe ctx [Kind.Assign, Kind.LParen] s hw).np
+    | exact (la_global_safeW ctx fuel d s hw).np
+
+theorem la_var_atEof (he : EofLast ctx) (fuel d : Nat) (s : St) (hw : WF ctx s) (hq : s.pos + 1 = ctx.toks.size) :
+    ∃ s' a, lookAhead ctx fuel (d + 3) .var_dec s = .ok s' a := by
+  obtain ⟨s', a, e⟩ := la_stmt_atEof ctx he fuel d s hw hq
+  have hm : ∀ p ∈ (Gen.lookAheadSet .var_dec).map (fun item => match item with
+      | .tok k => void (tk ctx k)
+      | .identThen ks => void (Parse.bind (parseIdentifier ctx none) (fun _ => altList (ks.map (tk ctx))))
+      | .sub m => lookAhead ctx fuel (d + 2) m), ∀ x, p s ≠ .panic x := by
+    intro p hp
+    simp only [Gen.lookAheadSet, List.map, List.mem_cons, List.not_mem_nil, or_false] at hp
+    rcases hp with rfl | rfl | rfl
+    · exact (void_safeW ctx (tk_safeW ctx _ _ hw)).np
+    · exact (la_stmt_safeW ctx fuel d s hw).np
+    · exact (identThen_safe ctx [Kind.LBracket, Kind.Eq, Kind.Colon] s hw).np
+  rw [lookAhead]
+  exact altList_ok _ hm ⟨lookAhead ctx fuel (d + 2) .stmt, by simp [Gen.lookAheadSet], s', a, e⟩
+
+theorem la_param_atEof (he : EofLast ctx) (fuel d : Nat) (s : St) (hw : WF ctx s) (hq : s.pos + 1 = ctx.toks.size) :
+    ∃ s' a, lookAhead ctx fuel (d + 4) .param_dec s = .ok s' a := by
+  obtain ⟨s', a, e⟩ := la_var_atEof ctx he fuel d s hw hq
+  have hm : ∀ p ∈ (Gen.lookAheadSet .param_dec).map (fun item => match item with
+      | .tok k => void (tk ctx k)
+      | .identThen ks => void (Parse.bind (parseIdentifier ctx none) (fun _ => altList (ks.map (tk ctx))))
+      | .sub m => lookAhead ctx fuel (d + 3) m), ∀ x, p s ≠ .panic x := by
+    intro p hp
+    simp only [Gen.lookAheadSet, List.map, List.mem_cons, List.not_mem_nil, or_false] at hp
+    rcases hp with rfl | rfl | rfl
+    · exact (void_safeW ctx (tk_safeW ctx _ _ hw)).np
+    · exact (void_safeW ctx (tk_safeW ctx _ _ hw)).np
+    · exact (la_var_safeW ctx fuel d s hw).np
+  rw [lookAhead]
+  exact altList_ok _ hm ⟨lookAhead ctx fuel (d + 3) .var_dec, by simp [Gen.lookAheadSet], s', a, e⟩
+
+theorem la_arg_atEof (he : EofLast ctx) (fuel d : Nat) (s : St) (hw : WF ctx s) (hq : s.pos + 1 = ctx.toks.size) :
+    ∃ s' a, lookAhead ctx fuel (d + 5) .arg s = .ok s' a := by
+  obtain ⟨s', a, e⟩ := la_param_atEof ctx he fuel d s hw hq
+  have hm : ∀ p ∈ (Gen.lookAheadSet .arg).map (fun item => match item with
+      | .tok k => void (tk ctx k)
+      | .identThen ks => void (Parse.bind (parseIdentifier ctx none) (fun _ => altList (ks.map (tk ctx))))
+      | .sub m => lookAhead ctx fuel (d + 4) m), ∀ x, p s ≠ .panic x := by
+    intro p hp
+    simp only [Gen.lookAheadSet, List.map, List.mem_cons, List.not_mem_nil, or_false] at hp
+    subst hp
+    exact (la_param_safeW ctx fuel d s hw).np
+  rw [lookAhead]
+  exact altList_ok _ hm ⟨lookAhead ctx fuel (d + 4) .param_dec, by simp [Gen.lookAheadSet], s', a, e⟩
+
+/-- **every synchronisation set accepts the final `Eof`**: no recovery skips it -/
+theorem peekla_atEof (n : LAName) : AtEof ctx (peek (la ctx n)) := by
+  intro he s hw hq k x hx
+  have hok : ∃ s' a, la ctx n s = .ok s' a := by
+    cases n with
+    | global_dec => exact la_global_atEof ctx he 0 7 s hw hq
+    | stmt => exact la_stmt_atEof ctx he 0 6 s hw hq
+    | var_dec => exact la_var_atEof ctx he 0 5 s hw hq
+    | param_dec => exact la_param_atEof ctx he 0 4 s hw hq
+    | arg => exact la_arg_atEof ctx he 0 3 s hw hq
+  obtain ⟨s', a, e⟩ := hok
+  simp [peek, e] at hx
 
 /-! ### expressions -/
 
 theorem tkbind_safe {β} (k : Kind) (f : Token → P β) (s : St) (hw : WF ctx s)
-    (hf : ∀ s' t, WF ctx s' → s.pos < s'.pos → s'.refPos = s.refPos → Safe ctx (f t) s') :
+    (hf : ∀ s' t, WF ctx s' → s.pos < s'.pos → s'.refPos = s.refPos → Safe ctx (f t) s') (hk : k ≠ Kind.Eof := by decide) :
     Safe ctx (Parse.bind (tk ctx k) f) s :=
-  bind_safe ctx (tk_safe ctx k s hw) (fun s' t h =>
-    hf s' t ((tk_safe ctx k s hw).wf_ok ctx hw h) (tk_ok ctx hw h).1 ((tk_safe ctx k s hw).ok _ _ h).2.2)
+  bind_safe ctx (tk_safe ctx k s hw hk) (fun s' t h =>
+    hf s' t ((tk_safe ctx k s hw hk).wf_ok ctx hw h) (tk_ok ctx hw h).1 ((tk_safe ctx k s hw hk).ok _ _ h).2.2.1)
 
 theorem expectInc_safe {α} (p : P α) (msg : Msg) (s : St) (hw : WF ctx s) (hp : Safe ctx p s) :
     Safe ctx (Parse.expect none (inc p) msg) s :=
@@ -568,14 +842,19 @@ theorem opLoop_safe (ops : List Kind) (hops : ∀ k ∈ ops, ∃ op, opOfKind k 
     (∀ k s', opLoop ctx ops rhs fuel e s = .err k s' → k = false ∧ Post ctx s0 s')
   | 0, _, _, s, _, hf, _, _, _ => by omega
   | fuel + 1, e, s0, s, hw, hf, hr, h0, hrhs => by
-    have ht := tks_safe ctx ops s hw
+    have hne : ∀ k ∈ ops, k ≠ Kind.Eof := by
+      intro k hk he
+      obtain ⟨op, h⟩ := hops k hk
+      subst he
+      simp [opOfKind] at h
+    have ht := tks_safe ctx ops s hw hne
     cases h : altList (ops.map (tk ctx)) s with
     | ok s1 t =>
       obtain ⟨hlt, hk⟩ := tks_ok ctx ops s s1 t hw h
       obtain ⟨op, hop⟩ := hops _ hk
       have hp1 := ht.ok _ _ h
       have hw1 := hp1.wf ctx hw
-      have hr1 : s1.refPos = r := by rw [hp1.2.2, hr]
+      have hr1 : s1.refPos = r := by rw [hp1.2.2.1, hr]
       have hs := hrhs e op s1 hw1 (Nat.le_of_lt hlt) hr1
       cases h2 : rhs e op s1 with
       | ok s2 e' =>
@@ -585,7 +864,7 @@ theorem opLoop_safe (ops : List Kind) (hops : ∀ k ∈ ops, ∃ op, opOfKind k 
           simp [opLoop, h, hop, h2]
         rw [e1]
         exact opLoop_safe ops hops rhs r fuel e' s0 s2 hw2 (by have := hp2.1; have := hw2.2; omega)
-          (by rw [hp2.2.2, hr1]) (h0.trans ctx (hp1.trans ctx hp2))
+          (by rw [hp2.2.2.1, hr1]) (h0.trans ctx (hp1.trans ctx hp2))
           (fun e op s' w l rr => hrhs e op s' w (by have := hp2.1; omega) rr)
       | err k x =>
         obtain ⟨rfl, hp2⟩ := hs.er _ _ h2
@@ -892,7 +1171,7 @@ theorem argument_safe (s : St) (hw : WF ctx s) : Safe ctx (parseArgument ctx non
     exact bind_safe ctx h1 (fun s2 _ e2 => pure_safe ctx _ s2 (h1.wf_ok ctx w1 e2))
   · refine pmap_safe ctx _ (info_safe' ctx hw (fun s0 e0 r0 w0 => ?_))
     exact safe_congr ctx (q := ignoreUntil0 ctx (peek (la ctx .arg)) (loopFuel ctx) s0.pos) rfl
-      (ignoreUntil0_safe' ctx _ _ _ s0 w0 (loopFuel_ok ctx s0 w0) (fun s' w _ _ => peekla_safe ctx .arg s' w))
+      (ignoreUntil0_safe' ctx _ (peekla_atEof ctx .arg) _ _ s0 w0 (loopFuel_ok ctx s0 w0) (fun s' w _ _ => peekla_safe ctx .arg s' w))
 
 theorem callInner_safe (s : St) (hw : WF ctx s) : Safe ctx (callInner ctx none none) s := by
   unfold callInner
@@ -906,10 +1185,10 @@ theorem callInner_safe (s : St) (hw : WF ctx s) : Safe ctx (callInner ctx none n
       (pmap (fun _ => ([] : List (Ref Expr)))
         (peek (altList [void (tk ctx .RParen), void (tk ctx .Semic), void (tk ctx .Eof)])))
       (parseList ctx (fun (e : Expr) => e.info.range) (parseArgument ctx) (loopFuel ctx) none)) s1 := by
-    refine alt2_safe ctx (pmap_safe ctx _ (peek_safe ctx w1 (altList_safe ctx w1 _ ?_))) ?_
+    refine alt2_safe ctx (pmap_safe ctx _ (peek_safeW ctx w1 (altList_safeW ctx w1 _ ?_))) ?_
     · intro p hp
       simp only [List.mem_cons, List.not_mem_nil, or_false] at hp
-      rcases hp with rfl | rfl | rfl <;> exact void_safe ctx (tk_safe ctx _ _ w1)
+      rcases hp with rfl | rfl | rfl <;> exact void_safeW ctx (tk_safeW ctx _ _ w1)
     · exact parseList_safe ctx _ _ s1 w1 (fun s' w _ => argument_safe ctx _ (wf_reref ctx w))
   refine bind_safe ctx hargs (fun s2 args e2 => ?_)
   have w2 := hargs.wf_ok ctx w1 e2
@@ -957,7 +1236,7 @@ theorem stmtParseError_safe (s : St) (hw : WF ctx s) : Safe ctx (stmtParseError 
     have hd := docComments_safe ctx s0 w0
     refine bind_safe ctx hd (fun s1 _ e1 => ?_)
     have w1 := hd.wf_ok ctx w0 e1
-    exact ignoreUntil1_safe ctx _ _ s1 w1 (loopFuel_ok ctx s1 w1) (fun s' w _ _ => peekla_safe ctx .stmt s' w)
+    exact ignoreUntil1_safe ctx _ (peekla_atEof ctx .stmt) _ s1 w1 (loopFuel_ok ctx s1 w1) (fun s' w _ _ => peekla_safe ctx .stmt s' w)
   unfold stmtParseError
   cases h : (pmap (fun (p : List Token × AstInfo) =>
       Stmt.error { p.2 with errors := p.2.errors ++
@@ -1088,18 +1367,20 @@ theorem stmt_safe (s : St) (hw : WF ctx s) : Safe ctx (parseStmt ctx (stmtFuel c
 /-! ### declarations -/
 
 /-- the `=` / `:` alternatives with their confusable spellings -/
-theorem confAlt_safe (k k1 k2 : Kind) (m1 m2 : Msg) (s : St) (hw : WF ctx s) :
+theorem confAlt_safe (k k1 k2 : Kind) (m1 m2 : Msg) (s : St) (hw : WF ctx s)
+    (hk : k ≠ Kind.Eof) (hk1 : k1 ≠ Kind.Eof) (hk2 : k2 ≠ Kind.Eof) :
     Safe ctx (altList [tk ctx k, confusable (tk ctx k1) m1, confusable (tk ctx k2) m2]) s := by
   refine altList_safe ctx hw _ ?_
   intro p hp
   simp only [List.mem_cons, List.not_mem_nil, or_false] at hp
   rcases hp with rfl | rfl | rfl
-  · exact tk_safe ctx _ s hw
-  · exact confusable_safe ctx _ hw (tk_safe ctx _ _ (wf_errBuf ctx hw []))
-  · exact confusable_safe ctx _ hw (tk_safe ctx _ _ (wf_errBuf ctx hw []))
+  · exact tk_safe ctx _ s hw hk
+  · exact confusable_safe ctx _ hw (tk_safe ctx _ _ (wf_errBuf ctx hw []) hk1)
+  · exact confusable_safe ctx _ hw (tk_safe ctx _ _ (wf_errBuf ctx hw []) hk2)
 
 /-- name, `=`/`:`, type, `;` — the common tail of type and variable declarations -/
-theorem declTail_safe (k k1 k2 : Kind) (m1 m2 m3 : Msg) (doc : List (List Char)) (s : St) (hw : WF ctx s) :
+theorem declTail_safe (k k1 k2 : Kind) (m1 m2 m3 : Msg) (doc : List (List Char)) (s : St) (hw : WF ctx s)
+    (hk : k ≠ Kind.Eof) (hk1 : k1 ≠ Kind.Eof) (hk2 : k2 ≠ Kind.Eof) :
     Safe ctx (Parse.bind (Parse.expect none (parseIdentifier ctx) (.ExpectedToken (chars "identifier"))) (fun name =>
       Parse.bind (Parse.expect none (inc (altList [tk ctx k, confusable (tk ctx k1) m1, confusable (tk ctx k2) m2])) m3) (fun _ =>
       Parse.bind (Parse.expect none (refTypeExpr ctx) (.ExpectedToken (chars "type expression"))) (fun te =>
@@ -1108,7 +1389,7 @@ theorem declTail_safe (k k1 k2 : Kind) (m1 m2 m3 : Msg) (doc : List (List Char))
   have h1 := (expect_safe ctx (.ExpectedToken (chars "identifier")) hw (parser := parseIdentifier ctx) (ident_safe ctx s hw)).1
   refine bind_safe ctx h1 (fun s2 _ e2 => ?_)
   have w2 := h1.wf_ok ctx hw e2
-  have h2 := expectInc_safe ctx _ m3 s2 w2 (confAlt_safe ctx k k1 k2 m1 m2 s2 w2)
+  have h2 := expectInc_safe ctx _ m3 s2 w2 (confAlt_safe ctx k k1 k2 m1 m2 s2 w2 hk hk1 hk2)
   refine bind_safe ctx h2 (fun s3 _ e3 => ?_)
   have w3 := h2.wf_ok ctx w2 e3
   have h3 := (expect_safe ctx (.ExpectedToken (chars "type expression")) w3 (parser := refTypeExpr ctx) (refTypeExpr_safe ctx s3 w3)).1
@@ -1122,7 +1403,7 @@ theorem typeDeclInner_safe (s : St) (hw : WF ctx s) : Safe ctx (typeDeclInner ct
   have hd := docComments_safe ctx s hw
   refine bind_safe ctx hd (fun s1 doc e1 => ?_)
   have w1 := hd.wf_ok ctx hw e1
-  exact tkbind_safe ctx _ _ s1 w1 (fun s2 _ w2 _ _ => declTail_safe ctx _ _ _ _ _ _ doc s2 w2)
+  exact tkbind_safe ctx _ _ s1 w1 (fun s2 _ w2 _ _ => declTail_safe ctx _ _ _ _ _ _ doc s2 w2 (by decide) (by decide) (by decide))
 
 theorem typeDecl_safe (s : St) (hw : WF ctx s) : Safe ctx (parseTypeDecl ctx none) s := by
   show Safe ctx (pmap _ (info (typeDeclInner ctx none none))) s
@@ -1133,14 +1414,14 @@ theorem varDeclInner_safe (s : St) (hw : WF ctx s) : Safe ctx (varDeclInner ctx 
   have hd := docComments_safe ctx s hw
   refine bind_safe ctx hd (fun s1 doc e1 => ?_)
   have w1 := hd.wf_ok ctx hw e1
-  exact tkbind_safe ctx _ _ s1 w1 (fun s2 _ w2 _ _ => declTail_safe ctx _ _ _ _ _ _ doc s2 w2)
+  exact tkbind_safe ctx _ _ s1 w1 (fun s2 _ w2 _ _ => declTail_safe ctx _ _ _ _ _ _ doc s2 w2 (by decide) (by decide) (by decide))
 
 theorem varDecl_safe (s : St) (hw : WF ctx s) : Safe ctx (parseVarDecl ctx none) s := by
   show Safe ctx (alt2 (pmap _ (info (varDeclInner ctx none none))) (pmap _ (info (ignoreUntil1 ctx (peek (la ctx .var_dec)) (loopFuel ctx))))) s
   refine alt2_safe ctx ?_ ?_
   · exact pmap_safe ctx _ (info_safe' ctx hw (fun s0 _ _ w0 => varDeclInner_safe ctx s0 w0))
   · refine pmap_safe ctx _ (info_safe' ctx hw (fun s0 _ _ w0 => ?_))
-    exact ignoreUntil1_safe ctx _ _ s0 w0 (loopFuel_ok ctx s0 w0) (fun s' w _ _ => peekla_safe ctx .var_dec s' w)
+    exact ignoreUntil1_safe ctx _ (peekla_atEof ctx .var_dec) _ s0 w0 (loopFuel_ok ctx s0 w0) (fun s' w _ _ => peekla_safe ctx .var_dec s' w)
 
 theorem paramDeclInner_safe (s : St) (hw : WF ctx s) : Safe ctx (paramDeclInner ctx none none) s := by
   unfold paramDeclInner
@@ -1172,7 +1453,7 @@ theorem paramDecl_safe (s : St) (hw : WF ctx s) : Safe ctx (parseParamDecl ctx n
   · exact pmap_safe ctx _ (info_safe' ctx hw (fun s0 _ _ w0 => paramDeclInner_safe ctx s0 w0))
   · refine pmap_safe ctx _ (info_safe' ctx hw (fun s0 _ _ w0 => ?_))
     exact safe_congr ctx (q := ignoreUntil0 ctx (peek (la ctx .param_dec)) (loopFuel ctx) s0.pos) rfl
-      (ignoreUntil0_safe' ctx _ _ _ s0 w0 (loopFuel_ok ctx s0 w0) (fun s' w _ _ => peekla_safe ctx .param_dec s' w))
+      (ignoreUntil0_safe' ctx _ (peekla_atEof ctx .param_dec) _ _ s0 w0 (loopFuel_ok ctx s0 w0) (fun s' w _ _ => peekla_safe ctx .param_dec s' w))
 
 theorem procDeclInner_safe (s : St) (hw : WF ctx s) : Safe ctx (procDeclInner ctx none) s := by
   unfold procDeclInner
@@ -1190,10 +1471,10 @@ theorem procDeclInner_safe (s : St) (hw : WF ctx s) : Safe ctx (procDeclInner ct
       (pmap (fun _ => ([] : List (Ref ParamDecl)))
         (peek (altList [void (tk ctx .RParen), void (tk ctx .LCurly), void (tk ctx .Eof)])))
       (parseList ctx (fun (p : ParamDecl) => p.info.range) (parseParamDecl ctx) (loopFuel ctx) none)) s4 := by
-    refine alt2_safe ctx (pmap_safe ctx _ (peek_safe ctx w4 (altList_safe ctx w4 _ ?_))) ?_
+    refine alt2_safe ctx (pmap_safe ctx _ (peek_safeW ctx w4 (altList_safeW ctx w4 _ ?_))) ?_
     · intro p hp
       simp only [List.mem_cons, List.not_mem_nil, or_false] at hp
-      rcases hp with rfl | rfl | rfl <;> exact void_safe ctx (tk_safe ctx _ _ w4)
+      rcases hp with rfl | rfl | rfl <;> exact void_safeW ctx (tk_safeW ctx _ _ w4)
     · exact parseList_safe ctx _ _ s4 w4 (fun s' w _ => paramDecl_safe ctx _ (wf_reref ctx w))
   refine bind_safe ctx hps (fun s5 _ e5 => ?_)
   have w5 := hps.wf_ok ctx w4 e5
@@ -1228,19 +1509,61 @@ theorem globalDecl_safe (s : St) (hw : WF ctx s) : Safe ctx (parseGlobalDecl ctx
   · exact pmap_safe ctx _ (typeDecl_safe ctx s hw)
   · exact pmap_safe ctx _ (procDecl_safe ctx s hw)
   · refine pmap_safe ctx _ (info_safe' ctx hw (fun s0 _ _ w0 => ?_))
-    exact ignoreUntil1_safe ctx _ _ s0 w0 (loopFuel_ok ctx s0 w0) (fun s' w _ _ => peekla_safe ctx .global_dec s' w)
+    exact ignoreUntil1_safe ctx _ (peekla_atEof ctx .global_dec) _ s0 w0 (loopFuel_ok ctx s0 w0) (fun s' w _ _ => peekla_safe ctx .global_dec s' w)
+
+theorem bind_safeW {α β} {p : P α} {f : α → P β} {s : St} (hp : Safe ctx p s)
+    (hf : ∀ s' a, p s = .ok s' a → SafeW ctx (f a) s') : SafeW ctx (Parse.bind p f) s := by
+  cases h : p s with
+  | ok s' a =>
+    have hs := hf s' a h
+    have e : Parse.bind p f s = f a s' := by simp [Parse.bind, h]
+    have h0 := hp.ok s' a h
+    refine ⟨?_, ?_, ?_⟩
+    · intro x hx; rw [e] at hx; exact hs.np x hx
+    · intro s'' b hx; rw [e] at hx
+      have := hs.ok _ _ hx
+      exact ⟨Nat.le_trans h0.1 this.1, this.2.1, this.2.2.trans h0.2.2.1⟩
+    · intro k s'' hx; rw [e] at hx
+      exact ⟨(hs.er _ _ hx).1, h0.trans ctx (hs.er _ _ hx).2⟩
+  | err k s' =>
+    obtain ⟨rfl, hpost⟩ := hp.er _ _ h
+    exact (safe_of_err ctx (by simp [Parse.bind, h]) hpost).w
+  | panic e => exact absurd h (hp.np e)
+
+/-- the end of `Program::parse`: the final `Eof`, which must be the last token -/
+theorem eofTail_safeW {α} (r : α) (s : St) (hw : WF ctx s) :
+    SafeW ctx (Parse.bind (allConsuming ctx (tk ctx .Eof)) (fun _ => pure' r)) s := by
+  have ht := tk_safeW ctx .Eof s hw
+  cases h : tk ctx .Eof s with
+  | ok s1 t =>
+    have hp1 := ht.ok _ _ h
+    by_cases hq : s1.pos = ctx.toks.size
+    · exact safeW_of_ok ctx (s' := s1) (a := r) (by simp [Parse.bind, allConsuming, h, hq, pure']) hp1
+    · have e : Parse.bind (allConsuming ctx (tk ctx .Eof)) (fun _ => pure' r) s = .err false s1 := by
+        simp [Parse.bind, allConsuming, h, hq]
+      obtain ⟨hlt, hk, htok⟩ := tk_ok ctx hw h
+      refine ⟨?_, ?_, ?_⟩
+      · intro x hx; rw [e] at hx; cases hx
+      · intro s'' b hx; rw [e] at hx; cases hx
+      · intro k s'' hx; rw [e] at hx; cases hx
+        refine ⟨rfl, hp1.1, hp1.2.1, hp1.2.2, ?_⟩
+        intro he _
+        have := he.only _ _ htok hk
+        omega
+  | err k x =>
+    obtain ⟨rfl, hpost⟩ := ht.er _ _ h
+    exact (safe_of_err ctx (by simp [Parse.bind, allConsuming, h]) hpost).w
+  | panic e => exact absurd h (ht.np e)
 
 /-- **The parser never panics**: `Program::parse` on any token array, from its start -/
-theorem program_safe : Safe ctx (parseProgram ctx none) { pos := 0 } := by
+theorem program_safe : SafeW ctx (parseProgram ctx none) { pos := 0 } := by
   have hw : WF ctx ({ pos := 0 } : St) := ⟨Nat.le_refl _, Nat.zero_le _⟩
-  show Safe ctx (pmap _ (Parse.bind (info (many ctx (fun (g : GlobalDecl) => g.info.range) (parseGlobalDecl ctx) (loopFuel ctx) none))
+  show SafeW ctx (pmap _ (Parse.bind (info (many ctx (fun (g : GlobalDecl) => g.info.range) (parseGlobalDecl ctx) (loopFuel ctx) none))
     (fun r => Parse.bind (allConsuming ctx (tk ctx .Eof)) (fun _ => pure' r)))) _
-  refine pmap_safe ctx _ ?_
+  refine pmap_safeW ctx _ ?_
   have h0 := info_safe' ctx hw (p := many ctx (fun (g : GlobalDecl) => g.info.range) (parseGlobalDecl ctx) (loopFuel ctx) none)
     (fun s0 _ _ w0 => many_safe ctx _ _ s0 w0 (fun s' w _ => globalDecl_safe ctx _ (wf_reref ctx w)))
-  refine bind_safe ctx h0 (fun s1 r e1 => ?_)
-  have w1 := h0.wf_ok ctx hw e1
-  have h1 := allConsuming_safe ctx (tk_safe ctx .Eof s1 w1)
-  exact bind_safe ctx h1 (fun s2 _ e2 => pure_safe ctx _ s2 (h1.wf_ok ctx w1 e2))
+  refine bind_safeW ctx h0 (fun s1 r e1 => ?_)
+  exact eofTail_safeW ctx r s1 (h0.wf_ok ctx hw e1)
 
 end Spl.Total
